@@ -39,6 +39,7 @@ type Case struct {
 	Rev      bool   `json:"rev,omitempty"`
 	LateCopy bool   `json:"lateCopy,omitempty"` // by-value goroutines copy the allocator after the start, while others already use it, and again every few cycles
 	PutView  bool   `json:"putView,omitempty"`  // every cycle puts back a Slice(0,k) view of the buffer it got (k varies) instead of the buffer itself
+	Grow     int    `json:"grow,omitempty"`     // how a holder fills the buffer it got: 0 = through a full-capacity view only; 1 = it first grows the obtained header to its capacity by AppendSample, 2 = by one Append (buffers up to 64 frames), reading the header back before the buffer returns to the pool
 	Table    bool   `json:"table,omitempty"`    // holders also register every buffer in a shared ownership table (adds synchronisation, so only some cases use it)
 }
 
@@ -51,7 +52,7 @@ func Check(c *Case) (res kit.Result) {
 	for _, t := range Types {
 		okT = okT || t == c.T
 	}
-	if !okT || c.C < 1 || c.C > 8 || c.K < 0 || c.K > 1<<21 || (c.K > 64 && c.G*c.M > 64) || c.L < 0 || c.L > c.K || c.G < 1 || c.G > 64 || c.M < 1 || c.M > 20000 || (c.M > 200 && c.C*c.K > 16) || c.Hold < 0 || c.Hold > 4 ||
+	if !okT || c.C < 1 || c.C > 8 || c.K < 0 || c.K > 1<<21 || (c.K > 64 && c.G*c.M > 64) || c.L < 0 || c.L > c.K || c.G < 1 || c.G > 64 || c.M < 1 || c.M > 20000 || (c.M > 200 && c.C*c.K > 16) || c.Hold < 0 || c.Hold > 4 || c.Grow < 0 || c.Grow > 2 ||
 		c.Procs < 1 || c.Procs > 64 || len(c.Yields) != c.G || len(c.ByValue) != c.G || c.Repeat < 1 || c.Repeat > 50 {
 		return
 	}
@@ -83,6 +84,9 @@ func Check(c *Case) (res kit.Result) {
 	}
 	if c.Table {
 		res.Class("ownershipTable")
+	}
+	if c.Grow > 0 && c.L < c.K && c.K <= 64 {
+		res.Class("holdersGrowTheirBuffers")
 	}
 	if c.LateCopy {
 		res.Class("allocatorCopiedWhileInUse")
@@ -121,6 +125,8 @@ func runOnce(c *Case) (string, int64) {
 			}
 		}
 	}
+	wantFull := want
+	wantFull.Len, wantFull.Length = C*K, K
 	errs := make([]string, c.G) // one slot per goroutine: no sharing between workers
 	one := kit.AllocAny(c.T, signal.Allocator{Channels: 1, Length: 1, Capacity: 1})
 	zero := one.Get(0)
@@ -217,6 +223,24 @@ func runOnce(c *Case) (string, int64) {
 					if isFloat && (g+cycle+hi)%4 == 0 {
 						st = negZero // equal to 0, yet a different sample: a recycled buffer must read +0
 					}
+					if c.Grow > 0 && L < K && K <= 64 {
+						// the holder grows the buffer it was given (in place: the capacity is there)
+						if c.Grow == 1 {
+							for b.Len() < C*K {
+								b.AppendSample(st)
+							}
+						} else {
+							blk := kit.AllocAny(c.T, signal.Allocator{Channels: C, Length: K - L, Capacity: K - L})
+							for i := 0; i < blk.Len(); i++ {
+								blk.Set(i, st)
+							}
+							b.Append(blk)
+						}
+						if h := b.Hdr(); h != wantFull {
+							errs[g] = fmt.Sprintf("goroutine %d cycle %d: obtained buffer grown to its capacity reports %+v, want %+v", g, cycle, h, wantFull)
+							return
+						}
+					}
 					for i := 0; i < n; i++ {
 						full.Set(i, st)
 					}
@@ -272,7 +296,7 @@ func FP(c *Case) uint64 {
 	if c.GC {
 		gc = 1
 	}
-	h.Ints([]int{c.C, c.L, c.K, c.G, c.M, c.Procs, gc, c.Repeat, c.Warm, c.Hold})
+	h.Ints([]int{c.C, c.L, c.K, c.G, c.M, c.Procs, gc, c.Repeat, c.Warm, c.Hold, c.Grow})
 	h.Str(fmt.Sprint(c.Rev, c.Table, c.PutView, c.LateCopy))
 	h.Ints(c.Yields)
 	for _, b := range c.ByValue {
@@ -300,6 +324,7 @@ func Gen(t *rapid.T) *Case {
 	}
 	c.Hold = rapid.SampledFrom([]int{1, 1, 2, 2, 3, 4}).Draw(t, "hold")
 	c.Rev = rapid.Bool().Draw(t, "rev")
+	c.Grow = rapid.IntRange(0, 2).Draw(t, "grow")
 	c.PutView = rapid.IntRange(0, 2).Draw(t, "putView") == 0
 	c.LateCopy = rapid.Bool().Draw(t, "lateCopy")
 	hammer := c.K <= 64 && rapid.IntRange(0, 3).Draw(t, "hammer") == 0
